@@ -73,12 +73,40 @@ TARGETS = {
 }
 
 
+class ScramblePool:
+    """a user pool as multiprocessing offers it: map / imap return results in task order (evaluated in a scrambled order), imap_unordered
+    hands them back in completion order - only the ordered variants may be used for pairing values with points"""
+
+    def __init__(self, seed):
+        import random as _r
+        self.rng = _r.Random(seed)
+
+    def map(self, f, xs):
+        xs = list(xs)
+        order = list(range(len(xs)))
+        self.rng.shuffle(order)
+        out = [None] * len(xs)
+        for i in order:
+            out[i] = f(xs[i])
+        return out
+
+    def imap(self, f, xs, chunksize=1):
+        return iter(self.map(f, xs))
+
+    def imap_unordered(self, f, xs, chunksize=1):
+        out = self.map(f, xs)
+        self.rng.shuffle(out)
+        return iter(out)
+
+
 def one(a):
     target, cfg, seed, npart = a
     warnings.simplefilter("ignore")
     from tempest import Sampler
     T = TARGETS[target]
     kw = dict(cfg)
+    if kw.pop("pool_kind", None) == "scramble":
+        kw["pool"] = ScramblePool(seed)
     kw.update(T["kw"])
     try:
         s = Sampler(pt, T["like"], n_dim=T.get("n_dim", 2), n_particles=npart, random_state=seed, **kw)
@@ -87,7 +115,14 @@ def one(a):
         m = np.sum(w[:, None] * x, axis=0)
         v = np.sum(w[:, None] * (x - m) ** 2, axis=0)
         ph = 2 * math.pi * (x[:, 0] + T.get("phase0", 5.0)) / 10.0
-        return dict(ok=True, logz=float(s.evidence()[0]), mean=m.tolist(), var=v.tolist(),
+        # the default call (trimmed weights) and equally weighted draws (resample=True on top of the default trimming)
+        xt, wt, _ = s.posterior()
+        xr, wr, _ = s.posterior(resample=True)
+        mt = np.sum(wt[:, None] * xt, axis=0)
+        mr = np.sum(wr[:, None] * xr, axis=0)
+        extra = dict(var_trim=np.sum(wt[:, None] * (xt - mt) ** 2, axis=0).tolist(), var_res=np.sum(wr[:, None] * (xr - mr) ** 2, axis=0).tolist(),
+                     mean_res=mr.tolist())
+        return dict(ok=True, **extra, logz=float(s.evidence()[0]), mean=m.tolist(), var=v.tolist(),
                     circ=[float(np.sum(w * np.cos(ph))), float(np.sum(w * np.sin(ph)))],
                     mass_left=float(np.sum(w[x[:, 0] < 0.0])), cdf0=float(np.sum(w[x[:, 0] < 2.0])),
                     cov01=float(np.sum(w * (x[:, 0] - m[0]) * (x[:, 1] - m[1]))))
